@@ -1862,6 +1862,8 @@ class Interp:
             # "concatenation of per-source results"); the batch object is appended as one element
             o.append(args[0])
             return None
+        if isinstance(o, SymSeq) and getattr(o, 'file_like', False) and attr == 'read' and not args:
+            return self.ctx.fresh('file_content', StrS)      # a text file opened for reading: lines (iteration) or whole content
         if isinstance(o, SymSeq):
             if attr == 'append' and len(args) == 1:
                 o.append(args[0])
